@@ -469,8 +469,8 @@ Section Minimum.
   Hypothesis solver_infeasible : forall k, status k = MgInfeasible -> forall a, ~ sat a (encode_mgs I k).
 
   Theorem mgs_returns_minimum lb n extra tried k : mgsm_loop status lb n extra = (tried, Some k) ->
-    (exists g, length g = k /\ genset_for I g) /\ (lb <= k)%nat /\
-    forall k' g, (lb <= k' < k)%nat -> length g = k' -> ~ genset_for I g.
+    (exists g, length g = k /\ genset_for I g) /\ (Nat.max 1 lb <= k)%nat /\
+    forall k' g, (Nat.max 1 lb <= k' < k)%nat -> length g = k' -> ~ genset_for I g.
   Proof.
     intros H.
     destruct (mgsm_loop_sound (fun k => exists a, sat a (encode_mgs I k)) status solver_optimal
@@ -498,8 +498,8 @@ Theorem mgs_returns_minimum_parts (I : mgs_inst) (status : nat -> mstatus) :
   (forall k, status k = MgOptimal -> exists a, sat a (encode_mgs I k)) ->
   (forall k, status k = MgInfeasible -> forall a, ~ sat a (encode_mgs I k)) ->
   forall lb n extra tried k, mgsm_loop status lb n extra = (tried, Some k) ->
-  (exists g, length g = k /\ genset (mg_mult I) (mg_numbers I) (mg_total I) g /\ (mg_int I = true -> Forall is_int g)) /\ (lb <= k)%nat /\
-  forall k' g, (lb <= k' < k)%nat -> length g = k' -> ~ genset_for I g.
+  (exists g, length g = k /\ genset (mg_mult I) (mg_numbers I) (mg_total I) g /\ (mg_int I = true -> Forall is_int g)) /\ (Nat.max 1 lb <= k)%nat /\
+  forall k' g, (Nat.max 1 lb <= k' < k)%nat -> length g = k' -> ~ genset_for I g.
 Proof.
   intros Hm Hopt Hinf lb n extra tried k H.
   destruct (mgsm_loop_sound (fun k => exists a, sat a (encode_mgs I k)) status Hopt
